@@ -327,7 +327,7 @@ func c15RateCheck(c c15RateCase) *kit.Verdict {
 	return v
 }
 
-var c15Windows = []string{"", "s", "1s", "2s", "0.5s", "100ms", "10ms", "20ms", "3ms", "500us", "1m", "1.5s"}
+var c15Windows = []string{"", "s", "1s", "2s", "0.5s", "100ms", "10ms", "20ms", "3ms", "500us", "1m", "1.5s", "m", "h", "ms", "us", "µs", "1h", "0.1m"}
 
 func c15GenRate(t *rapid.T, minPer, maxPer time.Duration) (count int, window string, per time.Duration) {
 	window = rapid.SampledFrom(c15Windows).Draw(t, "window")
@@ -343,7 +343,7 @@ func c15GenRate(t *rapid.T, minPer, maxPer time.Duration) (count int, window str
 func TestC15Rate(t *testing.T) {
 	kit.Run(t, kit.Spec[c15RateCase]{
 		Prop: "C15",
-		Rule: "full packet-scan commands (arp, icmp, udp, tcp variants; Ethernet and raw-IP; <=200 and >200 port ranges, i.e. one limiter per chunk) with --rate N or N/W, W in {s,1s,2s,1.5s,1m,0.5s,100ms,20ms,10ms,3ms,500us}, N drawn so that W/N is 0.15..25 ms, 17..600 probes (about 1 s of sending); also rates below one probe per second (1/2s, 3/5s, 20/m ...) with the scan interrupted after 1.2 s; in a third of the longer scans the wire blocks inside one early write for 25..60 rate intervals. Observed: monotonic time of every WritePacketData on the virtual wire. Oracle (lower bound only): for all i<j on one socket t_j - t_i >= (j-i-12)*W/N - 200us. non-trivial: some pair has a positive bound; distinct by case",
+		Rule: "full packet-scan commands (arp, icmp, udp, tcp variants; Ethernet and raw-IP; <=200 and >200 port ranges, i.e. one limiter per chunk) with --rate N or N/W, W in {s,1s,2s,1.5s,m,1m,0.1m,h,1h,0.5s,ms,100ms,20ms,10ms,3ms,us,500us}, N drawn so that W/N is 0.15..25 ms, 17..600 probes (about 1 s of sending); also rates below one probe per second (1/2s, 3/5s, 20/m ...) with the scan interrupted after 1.2 s; in a third of the longer scans the wire blocks inside one early write for 25..60 rate intervals. Observed: monotonic time of every WritePacketData on the virtual wire. Oracle (lower bound only): for all i<j on one socket t_j - t_i >= (j-i-12)*W/N - 200us. non-trivial: some pair has a positive bound; distinct by case",
 		Gen: func(t *rapid.T) c15RateCase {
 			c := c15RateCase{Cmd: rapid.SampledFrom(c01PacketCmds).Draw(t, "cmd"), Seed: rapid.Int64().Draw(t, "seed")}
 			var per time.Duration
